@@ -740,6 +740,11 @@ def _push_message_post(ctx):
     goals.append(("fresh-row", z3.Not(z3.Select(ent.exists, key))))
     goals.append(("existing-rows-untouched", _frame(ctx, QT, except_key=key)))
     goals.append(("type-is-class-name", z3.Select(cur.cols["message_type"], key) == I.ops.lit(I.class_of(ctx.args["message"]).name).t))
+    # the UNIQUE message_id column gets an id generated for THIS row -- never a value carried by the message object: the same
+    # object is pushed again by the polling re-queue and by retries, and a carried id would collide with the row it came from
+    mid = ins[0].data["colvals"].get("message_id")
+    fresh = ctx.st.ghost.get("fresh_ids", [])
+    goals.append(("row-id-is-generated-for-this-row", z3.BoolVal(mid is not None and any(z3.eq(z3.simplify(mid[0]), z3.simplify(t)) for t in fresh))))
     # two serialisers: run the real serialize_message on the same message and compare payload texts
     m, _c, node = I.index.func("stabilize.queue.sqlite.serialization:serialize_message")
     from pyvc.values import SFunc
